@@ -36,6 +36,8 @@ Fixpoint run_steps (w : world) (h : list ev) : list jv :=
     JL [ jv_outcome jv_res o; JL (map jv_eff eff);
          match e with
          | EC c => match spec_call w c with Some l => JL (map jv_allowed l) | None => jnone end
+         | ER o s [] => match spec_call w (Set_ o s) with Some l => JL (map jv_allowed l) | None => jnone end
+         | ER _ _ _ => jnone     (* an event inside the window: the inherent TOCTOU, no demand *)
          | EK _ => jnone
          end ] :: run_steps w1 r
   end.
